@@ -210,6 +210,12 @@ func findTraversals(c *Check) []traversal {
 						if isAdjacency(c, a, 0) {
 							pushAdj = true
 						}
+						// a frame (struct literal) that carries an adjacency list or a neighbour
+						for _, fv := range frameFieldValues(a) {
+							if isAdjacency(c, fv, 0) {
+								pushAdj = true
+							}
+						}
 					}
 					if !pushAdj {
 						if inner := engine.LoopOf(call); inner != nil && inner != lp && inner.RangedValue() != nil && isAdjacency(c, inner.RangedValue(), 0) {
@@ -298,6 +304,50 @@ func findTraversals(c *Check) []traversal {
 		}
 		return out[i].Site.Pos() < out[j].Site.Pos()
 	})
+	return out
+}
+
+// frameFieldValues: for `append(stack, T{f: v, ...})` (or &T{...}) the values stored into the fields of the
+// pushed composite literal.
+func frameFieldValues(arg ssa.Value) []ssa.Value {
+	var elems []ssa.Value
+	if sl, ok := arg.(*ssa.Slice); ok {
+		if al, ok := sl.X.(*ssa.Alloc); ok {
+			for _, ref := range *al.Referrers() {
+				if ia, ok := ref.(*ssa.IndexAddr); ok {
+					for _, r2 := range *ia.Referrers() {
+						if st, ok := r2.(*ssa.Store); ok && st.Addr == ssa.Value(ia) {
+							elems = append(elems, st.Val)
+						}
+					}
+				}
+			}
+		}
+	} else {
+		elems = append(elems, arg)
+	}
+	var out []ssa.Value
+	for _, e := range elems {
+		var lit *ssa.Alloc
+		switch x := e.(type) {
+		case *ssa.Alloc:
+			lit = x
+		case *ssa.UnOp:
+			lit, _ = x.X.(*ssa.Alloc)
+		}
+		if lit == nil {
+			continue
+		}
+		for _, ref := range *lit.Referrers() {
+			if fa, ok := ref.(*ssa.FieldAddr); ok {
+				for _, r2 := range *fa.Referrers() {
+					if st, ok := r2.(*ssa.Store); ok && st.Addr == ssa.Value(fa) {
+						out = append(out, st.Val)
+					}
+				}
+			}
+		}
+	}
 	return out
 }
 
